@@ -126,6 +126,49 @@ def oracle(ck, case, G, path):
                                 ck.fail("weight-edge-between-incompatible-descriptors", inp, f"{(e, t, k)} -> {path[id(dst)]}")
 
 
+def graph_dict(mol, G):
+    """edges of a reaction graph keyed by the positions of their end points in the molecule (None: a node that is not part of it)"""
+    path = node_paths(mol)
+    out = {}
+    for u, v, data in G.edges(data=True):
+        if id(u) not in path or id(v) not in path:
+            return None
+        out[(path[id(u)], path[id(v)])] = {k: float(x) for k, x in data.items()}
+    return out
+
+
+def same_graph(a, b):
+    if a is None or b is None or set(a) != set(b):
+        return False
+    return all(set(a[k]) == set(b[k]) and all(close(a[k][x], b[k][x]) for x in a[k]) for k in a)
+
+
+def history_cases(ck, case, first):
+    """the graph is a function of the molecule, not of what was asked of the object before: a second call gives the same graph, and the
+    graph of the mirror image (made AFTER a graph call) is the graph of the freshly parsed text of the mirror image"""
+    import gbigsmiles
+    inp = {"text": case.text}
+    with warnings.catch_warnings():
+        warnings.simplefilter("ignore")
+        try:
+            again = graph_dict(case.mol, case.mol.gen_reaction_graph())
+            if not same_graph(first, again):
+                ck.fail("graph-depends-on-call-history", inp, "a second gen_reaction_graph() call on the same object gives another graph")
+            mir = case.mol.gen_mirror()
+            gm = graph_dict(mir, mir.gen_reaction_graph())
+            fresh = gbigsmiles.Molecule(str(mir))
+            gf = graph_dict(fresh, fresh.gen_reaction_graph())
+        except Exception as exc:
+            ck.note(f"mirror / graph raised {type(exc).__name__}: {exc} on {case.text[:80]}")
+            return
+    ck.count("mirror-after-graph")
+    if not same_graph(gm, gf):
+        diff = [k for k in (gf or {}) if gm is None or k not in gm or any(not close(gm[k].get(x, float("nan")), gf[k][x]) for x in gf[k])][:3]
+        ck.fail("graph-depends-on-call-history", dict(inp, mirror=str(mir)),
+                f"graph of the mirror image made after a graph call differs from the graph of its freshly parsed text at {diff}: "
+                f"{[(k, (gm or {}).get(k), gf[k]) for k in diff]}")
+
+
 def main():
     ck = Check("C16")
     ck.do_build()
@@ -155,6 +198,8 @@ def main():
             continue
         if G.number_of_nodes() != len(path):
             ck.fail("node-count", {"text": case.text}, f"{G.number_of_nodes()} nodes, {len(path)} tokens + descriptors")
+        if len(keep) % 3 == 0:
+            history_cases(ck, case, impl)
         ops.append({"op": "RGRAPH", "els": case.els})
         keep.append((case, impl))
         ck.case((case.text,), nontrivial=len(impl) > 0, sample={"text": case.text, "edges": len(impl)})
